@@ -157,14 +157,14 @@ def rho_star_rarefaction(px, p, r, g, inst):
   return r * (px / p)**(1. / g)
 
 def rho_p_u_rarefaction(p, r, u, g, x, xd0, t, inst):
-  sgn = 1 if ((p == inst.pl) and (u == inst.ul) and (r == inst.rl)) else -1
+  sgn = 1 if ((p == inst.pl) and (u == inst.ul) and (r == inst.rl) and (g == inst.gl)) else -1
   a = sound_speed(p, r, g, inst)
   y = 2. / (g + 1.) + sgn * (g - 1.) / a / (g + 1.) * (u - (x - xd0) / t)
   v = 2. * (sgn * a + (g - 1.) * u / 2. + (x - xd0) / t) / (g + 1.)
   return r * y**(2. / (g - 1.)), p * y**(2. * g / (g - 1.)), v
 
 def shock_velocity(px, p, r, u, g, inst):
-  sgn = -1 if ((p == inst.pl) and (u == inst.ul) and (r == inst.rl)) else 1
+  sgn = -1 if ((p == inst.pl) and (u == inst.ul) and (r == inst.rl) and (g == inst.gl)) else 1
   a = sound_speed(p, r, g, inst)
   return u + sgn * a * sqrt((g + 1.) * px / 2. / g / p + (g - 1.) / 2. / g)
 
